@@ -1601,7 +1601,7 @@ class SiftConfig(collections.abc.MutableMapping):
         out = []
         lower_level = ['imf_opts', 'envelope_opts', 'extrema_opts']
         for stage in self.store.keys():
-            if stage not in lower_level:
+            if stage not in lower_level or not isinstance(self.store[stage], dict):
                 out.append('{0} : {1}'.format(stage, self.store[stage]))
             else:
                 out.append(stage + ':')
@@ -1618,7 +1618,7 @@ class SiftConfig(collections.abc.MutableMapping):
         _str_html = "<h3><b>%s %s</b></h3><hr><ul>" % (self.sift_type, self.__class__)
         lower_level = ['imf_opts', 'envelope_opts', 'extrema_opts']
         for stage in self.store.keys():
-            if stage not in lower_level:
+            if stage not in lower_level or not isinstance(self.store[stage], dict):
                 _str_html += '<li><b>{0}</b> : {1}</li>'.format(stage, self.store[stage])
             else:
                 outer_list = '<li><b>{0}</b></li>%s'.format(stage)
